@@ -20,12 +20,17 @@ RULE = ('generated object classes (type()/exec): 1-3 interfaces declared on a ba
         'Deferred fires, then 1; none for a dispatched no-reply call), reply_serial, destination, strict reference decode, '
         'METHOD_RETURN signature and values, ERROR name rule and text, UnknownObject / UnknownMethod / InvalidArgs, '
         'implementation invoked exactly once with equal arguments and the caller name iff the lookup succeeds. '
-        'Non-trivial = the call reaches user code or fails a lookup stage other than the first; distinct = case JSON.')
+        'Non-trivial = the call reaches user code or fails a lookup stage other than the first; distinct = case JSON. In half of the '
+        'cases the base class still declares an older edition (same name, first half of the methods) of each interface the '
+        'exported class declares: the exported class\'s own declaration is in force.')
 ASSUMPTIONS = ['a call without interface may run any implementation bound to that member whose interface signature matches, '
                'or be refused InvalidArgs if some interface declaring the member has another signature',
                'every declared (interface, member) has exactly one binding; members sharing a name across interfaces all '
                'use dbus_<name> or all use decorators',
-               'a no-reply call that fails its lookup may or may not be answered (at most one reply)']
+               'a no-reply call that fails its lookup may or may not be answered (at most one reply)',
+               'an interface name declared at two levels of a class hierarchy: the declaration of the more derived class '
+               'is the one in force (Python attribute lookup order; observed behaviour); members found only in the older '
+               'declaration are not called']
 
 IFACE_NAMES = ['org.verif.Alpha', 'org.verif.Beta', 'org.verif.Gamma']
 MEMBERS = ['Ma', 'Mb', 'Mc', 'Md', 'Ping', 'Introspect']     # user methods may reuse the names of the standard ones
@@ -63,6 +68,16 @@ def _build(case):
     sub_ns = {'dbusInterfaces': [ifaces[i['name']] for i in case['ifaces'] if i['level'] == 1]}
     if not sub_ns['dbusInterfaces']:
         del sub_ns['dbusInterfaces']
+    if _older_editions(case):
+        # the base class still declares an OLDER EDITION of every interface the subclass declares (same name, only the
+        # first half of the methods), ahead of its own interfaces: the exported object's own declaration is in force
+        olds = []
+        for ispec in case['ifaces']:
+            if ispec['level'] == 1:
+                half = ispec['methods'][:len(ispec['methods']) // 2]
+                olds.append(I.DBusInterface(ispec['name'], *[I.Method(m['name'], m['in'], m['out']) for m in half],
+                                            noRegister=True))
+        base_ns['dbusInterfaces'] = olds + base_ns['dbusInterfaces']
     binding = {}   # (iface, member) -> impl id
     done_dbus = set()
     n = 0
@@ -120,6 +135,10 @@ def _build(case):
     conn.sent[:] = []
     state['binding'] = binding
     return h, conn, obj, state
+
+
+def _older_editions(case):
+    return case.get('older_editions', len(case['ifaces']) % 2 == 0) and any(i['level'] == 1 for i in case['ifaces'])
 
 
 def _method_spec(case, iface, member):
@@ -396,6 +415,8 @@ def _desc(m):
 def classify(case):
     labels = []
     nt = False
+    if _older_editions(case):
+        labels.append('older_edition_in_base_class')
     for call in case['calls']:
         exported = call['path'] == case['path']
         cands = [m for i in case['ifaces'] if call['iface'] in (None, i['name']) for m in i['methods']
